@@ -222,7 +222,7 @@ func TestC13_CrashDuringSave(t *testing.T) {
 				}
 			}
 			if bad != "" {
-				p := rec.SaveReplay(fmt.Sprintf("crashsave-%d-%d", k, l), map[string]any{"state": k, "limit": l, "size": size, "history": descr})
+				p := rec.SaveReplay(t.Name(), fmt.Sprintf("crashsave-%d-%d", k, l), map[string]any{"state": k, "limit": l, "size": size, "history": descr})
 				rec.Violation("crash-during-save", bad, p)
 				t.Errorf("VERIF-FAIL signature=crash-during-save :: %s", bad)
 				return
